@@ -2,6 +2,7 @@ package pbytes
 
 import (
 	"encoding/hex"
+	"encoding/json"
 	"fmt"
 	"math/bits"
 	"strings"
@@ -21,6 +22,29 @@ func init() {
 }
 
 func TestReplay(t *testing.T) { vk.ReplayMain(t) }
+
+// liveBits / liveNat are what the exhaustive legs hand to the kit's watchdog:
+// they serialise to the replay case that is being executed at the moment the
+// watchdog looks (only if an operation does not return).
+type liveBits struct {
+	off  int
+	data []byte
+}
+
+func (l *liveBits) MarshalJSON() ([]byte, error) {
+	return json.Marshal(BitsCase{Off: l.off, Pat: hex.EncodeToString(l.data)})
+}
+
+type liveNat struct {
+	strs []string
+	i    int
+	j    atomic.Int64
+}
+
+func (l *liveNat) MarshalJSON() ([]byte, error) {
+	b := l.strs[l.j.Load()]
+	return json.Marshal(NatCase{A: l.strs[l.i], B: b, C: b})
+}
 
 // ---------------------------------------------------------------------------
 // mbits: exhaustive over (length, alignment, pattern)
@@ -54,10 +78,10 @@ func TestC20Bits(t *testing.T) {
 		tl, bb := tallies[w], bufs[w]
 		data := make([]byte, n)
 		rng := vk.NewRNG(h.Mix(fmt.Sprintf("bits/%d/%d", n, off)))
+		slots[w].Enter(&liveBits{off: off, data: data})
+		defer slots[w].Leave()
 		run := func(class string) bool {
-			slots[w].Enter(item)
 			msg := vk.Guard(func() string { return checkBits(bb, data, off) })
-			slots[w].Leave()
 			if msg != "" {
 				c := BitsCase{Off: off, Pat: hex.EncodeToString(data)}
 				p := h.Fail(c, msg)
@@ -309,9 +333,11 @@ func TestC20Natural(t *testing.T) {
 	vk.Parallel(h, n, func(w, i int) {
 		row := make([]int8, n)
 		bitsRow := make([]uint64, words)
-		slots[w].Enter(strs[i])
+		live := &liveNat{strs: strs, i: i}
+		slots[w].Enter(live)
 		msg := vk.Guard(func() string {
 			for j := 0; j < n; j++ {
+				live.j.Store(int64(j))
 				c, msg := checkPair(&xs[i], &xs[j])
 				if msg != "" {
 					fail(NatCase{A: strs[i], B: strs[j], C: strs[j]}, msg)
